@@ -2,6 +2,7 @@ import Driver.Common
 import Driver.C13
 import Rpki.Model.Slurm
 import Rpki.Model.JsonText
+import Rpki.Model.JsonRead
 namespace Driver.C15
 open Driver Rpki.Slurm Rpki.Prefix
 
@@ -157,6 +158,25 @@ def handle (toks : List String) (impl : String) : Verdict :=
         { model := some s!"ok {hexN text}", oracle := o }
       | none => { model := some "err" }
     | none => badOp "tree"
+  | ["jraw", hx] =>
+    match parseHexN hx with
+    | some b =>
+      (match Rpki.JsonRead.readFile b with
+       | some f =>
+         let text := Rpki.JsonText.fileText f
+         -- the statement on the implementation's own output: what it wrote must read back (reference reader) as
+         -- the file the model read from the input
+         let o : Option String :=
+           if impl.startsWith "ok " then
+             match parseHexN (impl.drop 3).toString with
+             | some w => match Rpki.JsonText.readFile w with
+               | some f' => if f' = f then none else some "the text written for the accepted file denotes a different file"
+               | none => some "the text written for the accepted file is not read back as a file"
+             | none => some "unparseable result"
+           else none
+         { model := some s!"ok {hexN text}", oracle := o }
+       | none => { model := some "err" })
+    | none => badOp "hex"
   | ["drop", ft, pt] =>
     match (parseTree ft).bind Filters.fromJson, parsePayload pt with
     | some f, some p =>
